@@ -26,8 +26,8 @@ MANIFEST = {
     'technique': 'deductive: VCs from the real AST of the loaders over an abstract file state + AST data-flow (taint) obligation for the cache key; '
                  'z3; native replay with synthetic LAMMPS files; every-prefix truncation as bounded stand-in',
 }
-UNITS = ['unit_flow', 'unit_key', 'unit_cache_io']
-BOUNDED = ['bounded_crash']
+UNITS = ['unit_flow', 'unit_key', 'unit_cache_io', 'unit_plumbing']
+BOUNDED = ['bounded_crash', 'bounded_plumbing']
 META = {'clauses': {'C16.flow': 'P', 'C16.key': 'P (static data-flow obligation)', 'C16.rt': 'A (pickle) + B', 'C16.crash': 'A (pickle prefix property) + B (every prefix of one real file)'},
         'not_decided': ['atomicity of the OS write / power-loss semantics', 'vasprun.xml and GROMACS parsers (no offline data): only control/data flow of their loaders is verified']}
 
@@ -505,3 +505,14 @@ def bounded_crash(tier, seed):
         if r['reproduced']:
             st.violation('key', r['detail'], 'verif.props.c16:replay_key', {'seed': seed % 1000 + 1})
     return st.result()
+
+
+# plumbing around the anchored functions: forwarding contracts of the public wrappers, no state shared between calls or objects
+from verif.props import plumbing as _plumbing  # noqa: E402
+
+
+def unit_plumbing(tier):
+    return _plumbing.unit_plumbing(PROPERTY)
+
+
+bounded_plumbing = _plumbing.make_bounded(PROPERTY)
